@@ -56,6 +56,8 @@ type Sched struct {
 	Preempts int
 	finished chan struct{}
 	aborting bool
+	abortMu  sync.Mutex // guards done flags, Panics and the wake-ups while threads unwind side by side
+	finOnce  sync.Once
 	Trace    []string
 	progress map[int]int // per thread: number of operations performed
 	total    int
@@ -107,13 +109,16 @@ func (s *Sched) newThread(name string) *thread {
 func (s *Sched) body(t *thread, f func()) {
 	<-t.wake
 	defer func() {
-		if r := recover(); r != nil {
-			if _, ok := r.(abortSignal); !ok {
+		r := recover()
+		s.abortMu.Lock()
+		if r != nil {
+			if _, ok := r.(abortSignal); !ok && !s.aborting {
 				s.Panics = append(s.Panics, fmt.Sprintf("thread %d (%s): %v\n%s", t.id, t.name, r, trimStack(debug.Stack())))
 			}
 		}
 		t.done = true
 		t.pending = nil
+		s.abortMu.Unlock()
 		s.dispatch(t)
 	}()
 	if t.abort {
@@ -131,6 +136,11 @@ func trimStack(b []byte) string {
 
 // point is called by the running thread with its pending operation; it returns after the operation was performed.
 func (s *Sched) point(o *op) {
+	if s.aborting {
+		// an operation attempted while the execution is being torn down (deferred calls of an unwinding thread):
+		// keep unwinding; nothing is scheduled any more
+		panic(abortSignal{})
+	}
 	t := s.cur
 	t.pending = o
 	s.dispatch(t)
@@ -212,30 +222,38 @@ func (s *Sched) dispatch(self *thread) {
 }
 
 func (s *Sched) startAbort(self *thread) {
+	s.abortMu.Lock()
 	s.aborting = true
 	for _, t := range s.threads {
 		t.abort = true
 	}
+	s.abortMu.Unlock()
 	s.abortNext(self)
 }
 
-// abortNext unwinds the remaining threads one at a time.
+// abortNext wakes every thread that has not finished so that it unwinds (each panics with abortSignal where it
+// waits; operations its deferred calls attempt panic again in point), and reports the end of the execution once
+// all of them are done. The verdict (deadlock, horizon) was fixed before the teardown began, so the order in which
+// threads unwind does not matter.
 func (s *Sched) abortNext(self *thread) {
+	s.abortMu.Lock()
+	defer s.abortMu.Unlock()
+	all := true
 	for _, t := range s.threads {
-		if !t.done && t != self {
-			s.cur = t
-			t.wake <- struct{}{}
-			if !self.done {
-				// self is unwinding too: it panics with abortSignal right after returning from point
+		if t.done {
+			continue
+		}
+		all = false
+		if t != self {
+			select {
+			case t.wake <- struct{}{}:
+			default:
 			}
-			return
 		}
 	}
-	if self.done {
-		close(s.finished)
-		return
+	if all {
+		s.finOnce.Do(func() { close(s.finished) })
 	}
-	// only self is left: it will panic(abortSignal) on return from point, finish, and call dispatch again
 }
 
 func cur() *Sched { return active.Load() }
